@@ -242,6 +242,11 @@ def run_shard(spec, rec):
             for thr in (5e-5, 2e-3, 1e-6, 1e-8):
                 run_case({"idx": i, "seed": spec["seed"], "cfg": cfg, "threshold": thr}, rec, mon)
             rec.count("layouts_rebuilt_under_other_thresholds")
+        if i % 10 == 7 and cfg["name"] == "gammatone":
+            # the same layout again, as the bank's causal / centred counterpart (and back): two banks that differ in one flag only
+            for flip in (True, False):
+                run_case({"idx": i, "seed": spec["seed"], "cfg": dict(cfg, max_centered=(not cfg["max_centered"]) if flip else cfg["max_centered"]), "threshold": None}, rec, mon)
+            rec.count("gammatone_layouts_rebuilt_with_max_centered_flipped")
     rec.extra["worst_ratio_to_bound"] = {"%s %s" % k: round(v, 4) for k, v in sorted(mon.worst.items())}
     monitor.report(rec)
     monitor.detach_all()
